@@ -89,14 +89,14 @@ Failed(e) ==
          \cup {c \in {"C15.operators"} :
                  [lt |-> e.res.lt, le |-> e.res.le, gt |-> e.res.gt,
                   ge |-> e.res.ge, eq |-> e.res.eq] # OpsOfCmp(e.res.cmp)}
-         \cup {c \in {"C15.eq_consistent"} : e.res.eq # IvEq(e.a, e.b)}
+         \cup {c \in {"C15.eq_consistent"} : e.res.eq # IvEq(e.a, e.b) \/ e.res.ne # ~IvEq(e.a, e.b)}    \* == and != (both are overridable)
     [] e.op = "iv.cmp" ->
          LET c0 == CmpDef(e.a, e.b, W) IN
          {c \in {"C15.partial_cmp"} : e.res.cmp # c0}
          \cup {c \in {"C15.operators"} :
                  [lt |-> e.res.lt, le |-> e.res.le, gt |-> e.res.gt,
                   ge |-> e.res.ge, eq |-> e.res.eq] # OpsOfCmp(e.res.cmp)}
-         \cup {c \in {"C15.eq_consistent"} : e.res.eq # IvEq(e.a, e.b)}
+         \cup {c \in {"C15.eq_consistent"} : e.res.eq # IvEq(e.a, e.b) \/ e.res.ne # ~IvEq(e.a, e.b)}    \* == and != (both are overridable)
     [] e.op = "iv.make" ->
          LET s == SpecMake(e.path, e.haslo, e.lo, e.hashi, e.hi) IN
          {c \in {"C14.make_outcome"} :
@@ -136,6 +136,7 @@ Failed(e) ==
     [] e.op = "iv.eqhash" ->
          {c \in {"C14.eq"} : e.res.eq # IvEq(e.a, e.b) \/ e.res.ne # ~IvEq(e.a, e.b)}
          \cup {c \in {"C14.hash"} : e.res.has_hash /\ IvEq(e.a, e.b) /\ ~e.res.hash_eq}
+         \cup {c \in {"C14.clone_from"} : ~e.res.clone_from_ok}   \* a copy made into an existing interval of any kind equals its source
     [] e.op = "iv.scalar" ->
          IF e.out.tag # "ok" THEN {"C13.scalar_total"}
          ELSE LET r == e.out.iv IN
@@ -194,7 +195,7 @@ Clauses(e) ==
                                "C14.optpair", "C14.roundtrip"}
                               \cup (IF e.res.has_proj THEN {"C14.projection", "C14.tuple"} ELSE {})
                               \cup (IF e.res.has_width_fn THEN {"C14.width"} ELSE {})
-    [] e.op = "iv.eqhash" -> {"C14.eq"} \cup (IF e.res.has_hash THEN {"C14.hash"} ELSE {})
+    [] e.op = "iv.eqhash" -> {"C14.eq", "C14.clone_from"} \cup (IF e.res.has_hash THEN {"C14.hash"} ELSE {})
     [] e.op = "iv.scalar" -> {"C13.scalar_wellformed", "C13.scalar_kind", "C13.scalar_sound", "C13.scalar_tight"}
     [] e.op = "iv.binary" -> IF BinPanics(e.bop, e.a, e.b) THEN {"C13.binary_panic"}
                              ELSE {"C13.binary_wellformed", "C13.binary_kind", "C13.binary_sound", "C13.binary_tight"}
